@@ -62,6 +62,10 @@ def gen(rng, scenario, tier):
         cfg = {"det": "cusum", "burn_in": rng.randint(2, 25), "delta": rng.choice([0.005, 0.25, 0.5]),
                "threshold": rng.choice([3, 5, 10, 25]), "direction": rng.choice([None, "positive", "negative"]),
                "target": None, "sd_hat": None}
+        if rng.random() < 0.12:
+            # CUSUM standardises: rescaling the stream by an exact power of two must not change a single decision
+            f = 2.0 ** rng.choice([-40, -30, 30])
+            xs = [v * f for v in xs]
         if scenario == "cusum_known":
             cfg["sd_hat"] = rng.choice([0.5, 1.0, 2.0])
             # on target, or off target by a few standard deviations (the statistic then moves inside the burn-in already)
@@ -151,6 +155,9 @@ def run_ph(case, ctx):
 
 def run_cusum(case, ctx):
     cfg = case["cfg"]
+    # the model knows when the estimation window really has zero variance (it ends the run before the detector can refuse):
+    # a "Standard deviation is 0" refusal at any other moment is a violation
+    ctx.judge_refusals = True
     det = ctx.call("C04:cusum:ctor", build, cfg)
     b = cfg["burn_in"]
     target, sd = cfg["target"], cfg["sd_hat"]
